@@ -298,6 +298,22 @@ func main() {
 						extra := []byte("appended-after-update")
 						if p := vlib.Catch(func() { rerr = re.Append(extra) }); p != "" || rerr != nil || !bytes.Equal(re.Root(), ref.RMTRoot(append(append([][]byte{}, mod...), extra))) {
 							viol("reload-after-update-continue", fmt.Sprintf("append on the tree reloaded after Update (n=%d subset=%b) gives a wrong root: %v %s", n, mask, rerr, p), c)
+						} else {
+							// the nodes stored by Update and the following Append still answer proofs for every leaf
+							final := append(append([][]byte{}, mod...), extra)
+							for li, lv := range final {
+								var pf *rmt.Proof
+								var perr error
+								q := [][]byte{ref.RMTLeaf(lv)}
+								if p := vlib.Catch(func() { pf, perr = re.GenerateProof(q) }); p != "" || perr != nil {
+									viol("proof-after-update-append-fails", fmt.Sprintf("GenerateProof for leaf %d after Update (n=%d subset=%b) and one Append fails: %v %s", li, n, mask, perr, p), c)
+									break
+								}
+								if !rmt.VerifyProof(q, pf, re.Root()) {
+									viol("proof-after-update-append-invalid", fmt.Sprintf("proof for leaf %d generated after Update (n=%d subset=%b) and one Append does not verify against the tree's root", li, n, mask), c)
+									break
+								}
+							}
 						}
 					}
 				}
